@@ -528,7 +528,9 @@ func (t *TransportLayerCC) Unmarshal(rawPacket []byte) error { //nolint:gocognit
 					}
 				}
 			}
-			processedPacketNum += uint16(len(packetStatus.SymbolList))
+			// a vector chunk always holds 14 or 7 symbols; those beyond the packet status count are
+			// padding and must not carry the uint16 counter past the count (and around to zero)
+			processedPacketNum += localMin(t.PacketStatusCount-processedPacketNum, uint16(len(packetStatus.SymbolList)))
 		}
 		packetStatusPos += packetStatusChunkLength
 		t.PacketChunks = append(t.PacketChunks, iPacketStatus)
